@@ -74,6 +74,13 @@ func scaleGeom(g geom.Geom, ex int) geom.Geom {
 	panic("scaleGeom")
 }
 
+// hist: query P1; change the SAME polygon object into P2 (flavour inplace: coordinates overwritten in the same
+// backing arrays; flavour reslot: ring slots of the same Polygon value re-pointed, P[k] = otherRing); query;
+// change back to P1; query. No other polygon is tested in between. Result: three digit strings.
+func emitHist(flav string, lo, hi int, p1, p2 geom.Geom) {
+	fmt.Fprintf(w, "hist %s %d %d %s | %s\n", flav, lo, hi, vproto.GeomToks(p1), vproto.GeomToks(p2))
+}
+
 func emitPt(tag string, p geom.Point, g geom.Geom) {
 	fmt.Fprintf(w, "pt %s %s %s %s\n", tag, vproto.F2H(p.X), vproto.F2H(p.Y), vproto.GeomToks(g))
 }
@@ -478,6 +485,61 @@ func floatCases(r *vproto.Rng, n int, exps []int) {
 	}
 }
 
+func mapPoly(p geom.Polygon, f func(geom.Point) geom.Point) geom.Polygon {
+	o := make(geom.Polygon, len(p))
+	for i, rg := range p {
+		o[i] = make(geom.Path, len(rg))
+		for k, v := range rg {
+			o[i][k] = f(v)
+		}
+	}
+	return o
+}
+
+// call histories against one polygon object that is changed between the calls
+func histories(r *vproto.Rng, n int) {
+	sq := poly(ring{pt(0, 0), pt(4, 0), pt(4, 4), pt(0, 4), pt(0, 0)})
+	wide := poly(ring{pt(0, 0), pt(8, 0), pt(8, 4), pt(0, 4), pt(0, 0)})
+	emitHist("inplace", -2, 18, sq, wide)
+	emitHist("inplace", -2, 18, wide, sq)
+	emitHist("reslot", -2, 18, sq, poly(ring{pt(5, 5), pt(9, 5), pt(7, 9)}))
+	for i := 0; i < n; i++ {
+		p1 := randPolygon(r, 4, 1)
+		if r.Bool() {
+			p1 = randPolygon(r, 8, 2)
+		}
+		switch r.Intn(6) {
+		case 0: // translate
+			dx, dy := float64(r.Range(-1, 4)), float64(r.Range(-1, 4))
+			emitHist("inplace", -4, 18, p1, mapPoly(p1, func(v geom.Point) geom.Point { return pt(v.X+dx, v.Y+dy) }))
+		case 1: // dilate
+			emitHist("inplace", -4, 18, p1, mapPoly(p1, func(v geom.Point) geom.Point { return pt(2*v.X, 2*v.Y) }))
+		case 2: // one vertex moved
+			p2 := mapPoly(p1, func(v geom.Point) geom.Point { return v })
+			if len(p2) > 0 && len(p2[0]) > 0 {
+				p2[0][r.Intn(len(p2[0]))] = pt(float64(r.Range(0, 16))/2, float64(r.Range(0, 16))/2)
+			}
+			emitHist("inplace", -4, 18, p1, p2)
+		case 3: // same structure, unrelated coordinates
+			emitHist("inplace", -4, 18, p1, mapPoly(p1, func(geom.Point) geom.Point {
+				return pt(float64(r.Range(0, 16))/2, float64(r.Range(0, 16))/2)
+			}))
+		case 4: // member polygons of a multipolygon overwritten in place
+			q := randPolygon(r, 4, 1)
+			m1 := geom.MultiPolygon{p1, q}
+			m2 := geom.MultiPolygon{mapPoly(p1, func(v geom.Point) geom.Point { return pt(v.X+3, v.Y+2) }),
+				mapPoly(q, func(v geom.Point) geom.Point { return pt(2*v.X, v.Y+1) })}
+			emitHist("inplace", -4, 18, m1, m2)
+		default: // ring slots re-pointed to other rings (lengths free, ring count kept)
+			p2 := make(geom.Polygon, len(p1))
+			for k := range p2 {
+				p2[k] = spell(r, gridRing(r, 3+r.Intn(3), 16, 2))
+			}
+			emitHist("reslot", -4, 18, p1, p2)
+		}
+	}
+}
+
 func receivers(r *vproto.Rng, n int) {
 	for i := 0; i < n; i++ {
 		var pg geom.Geom
@@ -535,6 +597,7 @@ func gen(seed uint64, tier string) {
 		scaledShapes(r, 6000)
 		floatCases(r, 30000, floatScales)
 		receivers(r, 15000)
+		histories(r, 5000)
 	} else {
 		exhaustive("tri", 3, 2, true)
 		exhaustive("tri3", 3, 3, false)
@@ -545,6 +608,7 @@ func gen(seed uint64, tier string) {
 		scaledShapes(r, 1200)
 		floatCases(r, 5000, floatScales)
 		receivers(r, 3000)
+		histories(r, 800)
 	}
 	w.Flush()
 }
@@ -702,6 +766,54 @@ func gridRun(lo, hi int, coord func(int) float64) func(geom.Polygonal) string {
 	}
 }
 
+func polysOf(g geom.Geom) []geom.Polygon {
+	switch t := g.(type) {
+	case geom.Polygon:
+		return []geom.Polygon{t}
+	case geom.MultiPolygon:
+		return t
+	}
+	panic("hist: not a polygon")
+}
+
+// history runs query / change-in-place / query / change-back / query against ONE polygon object
+func history(flav string, g1, g2 geom.Geom, run func(geom.Polygonal) string) string {
+	obj := g1.(geom.Polygonal) // the object under test; g1's arrays are the ones being overwritten
+	var keep geom.Geom         // pristine copy of state 1 (never passed to Within)
+	switch t := g1.(type) {
+	case geom.Polygon:
+		keep = mapPoly(t, func(v geom.Point) geom.Point { return v })
+	case geom.MultiPolygon:
+		m := make(geom.MultiPolygon, len(t))
+		for i, p := range t {
+			m[i] = mapPoly(p, func(v geom.Point) geom.Point { return v })
+		}
+		keep = m
+	}
+	set := func(src geom.Geom) {
+		dst, from := polysOf(obj.(geom.Geom)), polysOf(src)
+		for i := range dst {
+			for k := range dst[i] {
+				switch flav {
+				case "inplace":
+					if len(dst[i][k]) != len(from[i][k]) {
+						panic("hist inplace: structure differs")
+					}
+					copy(dst[i][k], from[i][k])
+				default: // reslot: the ring slot of the same Polygon value points to another array
+					dst[i][k] = append(geom.Path(nil), from[i][k]...)
+				}
+			}
+		}
+	}
+	out := run(obj)
+	set(g2)
+	out += " " + run(obj)
+	set(keep)
+	out += " " + run(obj)
+	return out
+}
+
 func impl() {
 	vproto.Lines(func(line string, out *bufio.Writer) {
 		defer out.Flush()
@@ -724,6 +836,15 @@ func impl() {
 				lo, hi, ex := p.Int(), p.Int(), p.Int()
 				pg := p.Geom().(geom.Polygonal)
 				res = ask(pg, true, gridRun(lo, hi, func(i int) float64 { return math.Ldexp(float64(i)/2, ex) }))
+			case "hist":
+				flav := p.Next()
+				lo, hi := p.Int(), p.Int()
+				g1 := p.Geom()
+				if p.Next() != "|" {
+					panic("hist: missing |")
+				}
+				g2 := p.Geom()
+				res = history(flav, g1, g2, gridRun(lo, hi, func(i int) float64 { return float64(i) / 2 }))
 			case "pt":
 				p.Next()
 				q := p.Pt()
